@@ -114,6 +114,30 @@ def lim_append(c, a):
     return {"ret": 0, "sane": sane(c)}
 
 
+@op("Limits", "SeekAppend")
+def lim_seekappend(c, a):
+    L = c.L
+    c.v["nref"] += 1
+    ref = c.v["nref"]
+    g, n = a["g"] * 1024, a["k"] * 1024
+    aid = L.Hstartaccess(c.v["fid"], RES_TAG, ref, DFACC_WRITE | DFACC_APPENDABLE)
+    if aid == FAIL:
+        return {"ret": FAIL, "sane": sane(c)}
+    L.Hwrite(aid, 1, b"x")
+    w = FAIL
+    if L.Hseek(aid, g, 0) != FAIL:
+        b = CBuf(n, bytes((i * 7) % 251 for i in range(n)))
+        w = L.Hwrite(aid, n, b.ptr)
+        b.free()
+    L.Hendaccess(aid)
+    if w == FAIL:
+        ln = L.Hlength(c.v["fid"], RES_TAG, ref)
+        c.v["granted"][ref] = (L.Hoffset(c.v["fid"], RES_TAG, ref), ln)
+        return {"ret": FAIL, "sane": sane(c) and ln >= 1}
+    c.v["granted"][ref] = (L.Hoffset(c.v["fid"], RES_TAG, ref), g + n)
+    return {"ret": 0, "sane": sane(c)}
+
+
 def the_vg(c):
     L = c.L
     if c.v.get("vg", FAIL) == FAIL:
